@@ -45,6 +45,9 @@ type AuthParams struct {
 	Reqs   []AuthReq  `json:"reqs"`
 	Tasks  int        `json:"tasks"`
 	Cache  string     `json:"cache"` // none | shared | single
+	// SharedCtx: every request is made with one and the same context, which carries the
+	// scope hints of Reqs[0] (given with WithScopes) - as a caller that prepares its context once does
+	SharedCtx bool `json:"shared_ctx,omitempty"`
 	OAuth2 bool       `json:"force_oauth2,omitempty"`
 }
 
@@ -136,6 +139,14 @@ func (p *authProp) Gen(r *Rand, tier string, idx int) any {
 		}
 		q.Global = r.Chance(0.3)
 		ap.Reqs = append(ap.Reqs, q)
+	}
+	if ap.Tasks > 1 && r.Chance(0.3) {
+		ap.SharedCtx = true
+		hints := []string{"repository:lib/app:pull", "repository:team/tool:pull,push", "repository:x:pull", "registry:catalog:*", "repository:other:pull"}
+		k := r.Range(3, 5)
+		for i := range ap.Reqs {
+			ap.Reqs[i].Hints, ap.Reqs[i].Global = hints[:k], true
+		}
 	}
 	if ap.Cache == "single" && r.Chance(0.5) {
 		// the single-context cache is documented for one context per host (e.g. one
@@ -527,6 +538,11 @@ func (p *authProp) run(rc *RunCtx, ap *AuthParams, info *RunInfo) *Verdict {
 			return violation("scope-canonicalisation", "", "CleanScopes(%v) = %v, a set-based canonical form is %v", q.Hints, got, want)
 		}
 	}
+	var sharedCtx context.Context
+	if ap.SharedCtx && len(ap.Reqs) > 0 {
+		sharedCtx = auth.WithScopes(context.Background(), ap.Reqs[0].Hints...)
+		info.Probes["one_context_shared_by_all_requests"]++
+	}
 	res := simrt.Run(rc.NextConfig(), func() {
 		done := make(chan struct{}, ap.Tasks)
 		for t := 0; t < ap.Tasks; t++ {
@@ -539,7 +555,9 @@ func (p *authProp) run(rc *RunCtx, ap *AuthParams, info *RunInfo) *Verdict {
 					}
 					h := ap.Hosts[q.Host]
 					ctx := context.Background()
-					if len(q.Hints) > 0 {
+					if sharedCtx != nil {
+						ctx = sharedCtx
+					} else if len(q.Hints) > 0 {
 						if q.Global {
 							ctx = auth.WithScopes(ctx, q.Hints...)
 						} else {
